@@ -91,6 +91,28 @@ pub struct Layered {
     pub description: String,
 }
 
+impl Layered {
+    /// what an operator does to stop the instance (ctrl-c / SIGINT)
+    pub fn interrupt(&self) {
+        unsafe {
+            libc::kill(self.child.id() as i32, libc::SIGINT);
+        }
+    }
+    /// waits for the process to end by itself; None = still running after `timeout`
+    pub fn wait_exit(&mut self, timeout: Duration) -> Option<std::process::ExitStatus> {
+        let t0 = Instant::now();
+        loop {
+            if let Ok(Some(st)) = self.child.try_wait() {
+                return Some(st);
+            }
+            if t0.elapsed() > timeout {
+                return None;
+            }
+            std::thread::sleep(Duration::from_millis(5));
+        }
+    }
+}
+
 impl Drop for Layered {
     fn drop(&mut self) {
         // the way an operator stops it
